@@ -1,7 +1,9 @@
 package transcode
 
 import (
+	"bytes"
 	"fmt"
+	"io"
 	"math/rand"
 	"net/http"
 	"net/url"
@@ -28,10 +30,137 @@ type reqSpec struct {
 	RawQuery string              `json:"raw_query,omitempty"`
 	Header   map[string][]string `json:"header,omitempty"`
 	Body     []byte              `json:"body,omitempty"`
+	// How the body reaches the server (requests with a body only):
+	// Mode "" = HTTP/1.1 with Content-Length; "h2-content-length";
+	// "h2-unknown-length" (HTTP/2 without content-length: ContentLength -1,
+	// no Transfer-Encoding); "h1-unknown-length" (HTTP/1.0 style, delimited
+	// by close); "h1-chunked" (ContentLength -1, Transfer-Encoding chunked).
+	Mode string `json:"mode,omitempty"`
+	// Cuts / EOFWithData: the body is delivered by a fragmenting reader.
+	Cuts        []int `json:"cuts,omitempty"`
+	EOFWithData bool  `json:"eof_with_data,omitempty"`
+	// Transport names the single non-default delivery feature of the request
+	// (finding keys): one of the modes, "fragmented-reads",
+	// "gzip-members=N", "gzip-empty-member".
+	Transport string `json:"transport,omitempty"`
 }
 
+type plainReader struct{ r io.Reader }
+
+func (p plainReader) Read(b []byte) (int, error) { return p.r.Read(b) }
+
 func (q reqSpec) build() *http.Request {
-	return wire.BodyRequest(q.Verb, q.Path, q.RawQuery, http.Header(q.Header), q.Body)
+	if q.Body == nil {
+		return wire.BodyRequest(q.Verb, q.Path, q.RawQuery, http.Header(q.Header), nil)
+	}
+	var rd io.Reader = bytes.NewReader(q.Body)
+	if len(q.Cuts) > 0 || q.EOFWithData {
+		rd = &wire.ScriptReader{Data: q.Body, Cuts: q.Cuts, EOFWithData: q.EOFWithData}
+	}
+	cl := int64(len(q.Body))
+	switch q.Mode {
+	case "h2-unknown-length", "h1-unknown-length", "h1-chunked":
+		cl = -1
+		rd = plainReader{rd}
+	}
+	req := wire.NewRequest(q.Verb, q.Path, q.RawQuery, http.Header(q.Header), rd, cl)
+	switch q.Mode {
+	case "h2-unknown-length", "h2-content-length":
+		req.Proto, req.ProtoMajor, req.ProtoMinor = "HTTP/2.0", 2, 0
+	case "h1-unknown-length":
+		req.Proto, req.ProtoMajor, req.ProtoMinor = "HTTP/1.0", 1, 0
+		req.Close = true
+	case "h1-chunked":
+		req.TransferEncoding = []string{"chunked"}
+	}
+	return req
+}
+
+// defaultTransport is the same request delivered the plain way: HTTP/1.1,
+// Content-Length, one read, a single gzip member.
+func (q reqSpec) defaultTransport() reqSpec {
+	d := q
+	d.Mode, d.Cuts, d.EOFWithData, d.Transport = "", nil, false, ""
+	if strings.HasPrefix(q.Transport, "gzip-") && q.Body != nil {
+		if raw, err := wire.Gunzip(q.Body); err == nil {
+			d.Body = wire.Gzip(raw)
+		}
+	}
+	return d
+}
+
+var transportFeatures = []string{"", "h2-unknown-length", "", "h1-chunked", "gzip-members=2", "", "h2-content-length", "fragmented-reads", "",
+	"h1-unknown-length", "gzip-members=3", "", "fragmented-reads", "gzip-empty-member", "h2-unknown-length"}
+
+// gzipMembers compresses raw as n gzip members cut at random offsets (RFC
+// 1952: a gzip file is a series of members, its content their concatenation).
+func gzipMembers(rng *rand.Rand, raw []byte, n int, emptyMember bool) []byte {
+	var parts [][]byte
+	rest := raw
+	for i := 0; i < n-1 && len(rest) > 0; i++ {
+		k := 1 + rng.Intn(len(rest))
+		if k == len(rest) && len(rest) > 1 {
+			k = len(rest) - 1
+		}
+		parts = append(parts, rest[:k])
+		rest = rest[k:]
+	}
+	parts = append(parts, rest)
+	if emptyMember {
+		i := rng.Intn(len(parts) + 1)
+		parts = append(parts[:i], append([][]byte{nil}, parts[i:]...)...)
+	}
+	var out []byte
+	for _, p := range parts {
+		out = append(out, wire.Gzip(p)...)
+	}
+	return out
+}
+
+// applyTransport gives a request with a body one delivery feature.
+func applyTransport(rng *rand.Rand, q *reqSpec, feature string) {
+	if q.Body == nil || feature == "" {
+		return
+	}
+	gz := len(q.Header["Content-Encoding"]) > 0
+	switch {
+	case strings.HasPrefix(feature, "gzip-"):
+		if !gz {
+			return
+		}
+		raw, err := wire.Gunzip(q.Body)
+		if err != nil {
+			return
+		}
+		switch feature {
+		case "gzip-members=2":
+			q.Body = gzipMembers(rng, raw, 2, false)
+		case "gzip-members=3":
+			q.Body = gzipMembers(rng, raw, 3, false)
+		default:
+			q.Body = gzipMembers(rng, raw, 1+rng.Intn(2), true)
+		}
+	case feature == "fragmented-reads":
+		if len(q.Body) == 0 {
+			return
+		}
+		for left := len(q.Body); left > 0 && len(q.Cuts) < 64; {
+			k := 1 + rng.Intn(1+left/2)
+			if rng.Intn(3) == 0 {
+				k = 1
+			}
+			q.Cuts = append(q.Cuts, k)
+			left -= k
+		}
+		q.EOFWithData = rng.Intn(2) == 0
+	default:
+		q.Mode = feature
+		if rng.Intn(3) == 0 && len(q.Body) > 1 && feature != "h2-content-length" {
+			// unknown-length bodies usually arrive in several reads
+			q.Cuts = []int{1 + rng.Intn(len(q.Body))}
+		}
+	}
+	q.Transport = feature
 }
 
 type kv struct{ k, v string }
@@ -466,12 +595,20 @@ func (b bodyEnc) String() string {
 
 func (b bodyEnc) isJSON() bool { return b.ctype == "" || b.ctype == "application/json" }
 
+// custom reports whether the content type needs a mux with the extra codecs.
+func (b bodyEnc) custom() bool { return isCustomType(b.ctype) }
+
 func (b bodyEnc) encode(m proto.Message) ([]byte, error) {
 	var raw []byte
 	var err error
-	if b.isJSON() {
+	switch {
+	case b.isJSON():
 		raw, err = protojson.MarshalOptions{UseProtoNames: b.jsonFl&1 != 0, UseEnumNumbers: b.jsonFl&2 != 0, Multiline: b.jsonFl&4 != 0}.Marshal(m)
-	} else {
+	case b.ctype == ctAltJSON:
+		raw, err = altJSONCodec{}.Marshal(m)
+	case b.ctype == ctAltProto:
+		raw, err = altProtoCodec{}.Marshal(m)
+	default:
 		raw, err = proto.Marshal(m)
 	}
 	if err != nil {
@@ -497,6 +634,8 @@ func (b bodyEnc) header() map[string][]string {
 var bodyEncs = []bodyEnc{
 	{ctype: "application/json"}, {ctype: "application/protobuf"}, {ctype: "application/octet-stream"}, {ctype: ""},
 	{ctype: "application/json", gzip: true}, {ctype: "application/protobuf", gzip: true}, {ctype: "application/octet-stream", gzip: true}, {ctype: "", gzip: true},
+	// media types added with larking.CodecOption (served by the custom-codecs mux)
+	{ctype: ctAltJSON}, {ctype: ctAltProto}, {ctype: ctAltJSON, gzip: true}, {ctype: ctAltProto, gzip: true},
 }
 
 func reqVerb(rule RuleSpec) string {
